@@ -1,6 +1,7 @@
 package main
 
 import (
+	"encoding/json"
 	"fmt"
 	"strings"
 
@@ -102,6 +103,92 @@ func c18TagNames(r *Run) {
 						}
 					}
 				}
+			}
+		}
+	}
+}
+
+// ---------- C13: repeated calls on one evaluator over maps whose keys an "improved" order could tie ----------
+
+// A quantifier that visits map entries in an order that is not a total order of the keys (case folded, numeric aware,
+// normalised) answers differently from call to call when one entry errors and another decides. The data are fixed; every
+// call is compared with the first call and with a fresh evaluator.
+func c13TiedKeyOrders(r *Run) {
+	sets := [][]string{{"name", "Name", "NAME"}, {"a", "A", "b"}, {"7", "07", "+7"}, {"9", "10", "1a"}, {"é", "é", "É"}, {"k", "K", "k "}, {"ß", "ss", "SS"}, {"x", "y", "z"}}
+	vals := []interface{}{"abc", 5, "zzz"} // against `v == "abc"`: decisive true, error, false
+	exprs := []string{`any m as _, v { v == "abc" }`, `all m as _, v { v == "abc" }`, `any m as k, v { v == "abc" and k != "q" }`, `all m as k { m[k] != 5 }`}
+	for si, keys := range sets {
+		for rot := 0; rot < 3; rot++ {
+			m := map[string]interface{}{}
+			for i, k := range keys {
+				m[k] = vals[(i+rot)%3]
+			}
+			d := map[string]interface{}{"m": m}
+			for _, e := range exprs {
+				ev, err := bexpr.CreateEvaluator(e)
+				if err != nil {
+					continue
+				}
+				first := evalObs(ev, d)
+				counts := map[string]int{first: 1}
+				for k := 1; k < 120; k++ {
+					o := evalObs(ev, d)
+					if k%10 == 0 {
+						if fresh, err2 := bexpr.CreateEvaluator(e); err2 == nil {
+							counts[evalObs(fresh, d)]++
+						}
+					}
+					counts[o]++
+				}
+				r.Evaluations += 132
+				r.Seen(fmt.Sprintf("tied-key-orders|%d|%d|%s|%s", si, rot, e, first))
+				if len(counts) != 1 {
+					r.Violate("history-dependent", fmt.Sprintf("tied-keys|%d|%s", si, e), map[string]interface{}{"expression": e, "datum": describe(d)}, "the same call on the same datum: "+fmt.Sprint(counts))
+				}
+			}
+		}
+	}
+}
+
+// ---------- C13: documents decoded with UseNumber stay as they were ----------
+
+func c13JSONNumbers(r *Run) {
+	mk := func() interface{} {
+		var d interface{}
+		dec := json.NewDecoder(strings.NewReader(`{"ports":[80,443.5,"x",null,[1,2]],"n":5,"m":{"a":1,"b":[2,3]},"items":[{"ports":[80]},{"ports":[81.5]}]}`))
+		dec.UseNumber()
+		if err := dec.Decode(&d); err != nil {
+			panic(err)
+		}
+		return d
+	}
+	exprs := []string{"80 in ports", "ports contains 443.5", "n == 5", "any ports as p { p == 80 }", "1 in m.b or 2 in m.b", "m.a != 1", "x in ports", "any items as it { 80 in it.ports }", "ports is not empty", "81.5 not in ports"}
+	for _, e := range exprs {
+		d := mk()
+		before := sIface(d)
+		ev, err := bexpr.CreateEvaluator(e)
+		if err != nil {
+			continue
+		}
+		for k := 0; k < 3; k++ {
+			o := evalObs(ev, d)
+			r.Evaluations++
+			r.Seen("json-numbers|" + e + "|" + o)
+			if after := sIface(d); after != before {
+				r.Violate("datum-modified", "json-numbers|"+e, map[string]interface{}{"expression": e, "datum": describe(mk())}, "after Evaluate the document is "+truncate(describe(d), 300))
+				break
+			}
+		}
+		items := mk().(map[string]interface{})["items"]
+		ib := sIface(items)
+		if flt, err := bexpr.CreateFilter(strings.Replace(e, "it.ports", "ports", 1)); err == nil && flt != nil {
+			func() {
+				defer func() { recover() }()
+				flt.Execute(items)
+			}()
+			r.Evaluations++
+			if sIface(items) != ib {
+				r.Violate("datum-modified", "json-numbers-filter|"+e, map[string]interface{}{"expression": e, "datum": describe(mk())}, "after Execute the list is "+truncate(describe(items), 300))
 			}
 		}
 	}
